@@ -314,9 +314,10 @@ pub fn finish(ctx: &Ctx, mut rep: Report) -> i32 {
         let _ = std::fs::write(&path, serde_json::to_string_pretty(&v.to_json()).unwrap());
         println!("VIOLATION property={} replay={}", v.property, path.display());
         println!("  driver={} class={}", v.driver, v.class);
-        println!("  case={}", v.case);
-        println!("  expected={}", v.expected);
-        println!("  observed={}", v.observed);
+        let clip = |s: String| if s.chars().count() > 600 { format!("{}… [{} characters, full text in the replay file]", s.chars().take(600).collect::<String>(), s.chars().count()) } else { s };
+        println!("  case={}", clip(v.case.to_string()));
+        println!("  expected={}", clip(v.expected.clone()));
+        println!("  observed={}", clip(v.observed.clone()));
         vio_json.push(json!({"driver": v.driver, "class": v.class, "replay": name}));
     }
     let wall = rep.started.elapsed().as_secs_f64();
